@@ -149,7 +149,9 @@ func taskArgs(c *cli.Context) []string {
 	var dash = -1
 	for k, arg := range c.Args().Slice() {
 		if arg == "--" {
+			// everything after the first "--" belongs to the tasks, including a further "--"
 			dash = k
+			break
 		}
 	}
 
